@@ -186,7 +186,7 @@ def args_records():
     from mingus.extra import tunings as _tun
     g = _tun.get_tuning("Guitar", "Standard")
     rec("StringTuning.find_fingering(list)", lambda xs: g.find_fingering(xs), [["E-3", "B-3", "E-4"]])
-    rec("StringTuning.find_chord_fingerings(list)", lambda xs: g.find_chord_fingerings(xs), [["C", "E", "G"]])
+    rec("StringTuning.find_chord_fingering(list)", lambda xs: g.find_chord_fingering(xs), [["C", "E", "G"]])
     rec("StringTuning.frets_to_NoteContainer(list)", lambda xs: g.frets_to_NoteContainer(xs), [[0, 2, 2, 1, 0, 0]])
     rec("chords.determine(list, shorthand, no_inversion)", lambda xs: __import__("mingus.core.chords", fromlist=["x"]).determine(xs, True, True), [["C", "E", "G", "B"]])
     rec("chords.determine(list, no_polychords)", lambda xs: __import__("mingus.core.chords", fromlist=["x"]).determine(xs, False, False, True), [["C", "E", "G", "B", "D"]])
